@@ -187,7 +187,8 @@ def scenario(r, big):
         steps += send_all(pf, r.sample(hon, 1))
     elif kind == "unknown":
         steps += collect(pf, hon, ii="zz") + send_all(pf, ii="zz")
-        steps.append(bcast(r.choice(hon), s, "zz", P(hon[0], "x")))
+        h = r.choice(hon)
+        steps.append(bcast(h, s, "zz", P(h, "x")))
         steps += send_all(pf, ii="zz", lst=[D(f, s, "zz", pf)] * n)
         steps += collect(pf, hon) + send_all(pf, ii="zz", lst=exact(n, s, i, pf))
     elif kind == "junk":
